@@ -309,7 +309,14 @@ class Check:
         json.dump(ev, open(os.path.join(VERIF, 'evidence', self.pid + '.json'), 'w'), indent=1, default=str)
         for key, what in self.known_hits:
             print('KNOWN-FINDING: property=%s %s [%s]' % (self.pid, what, key))
+        concrete = any(not nofail for _, _, _, nofail in self.viol)
         for key, path, what, nofail in self.viol:
+            if nofail and concrete:
+                # a proof obligation / correspondence no longer checks AND the search found a failing input: the
+                # violation is reported with that input (other lines); the broken obligation is named here only
+                print('# broken obligation %s (%s): %s -- a failing input is reported by the VIOLATION line(s) of this run'
+                      % (key, os.path.relpath(path, VERIF), what))
+                continue
             print('# %s: %s' % (key, what))
             print('VIOLATION property=%s replay=%s%s' % (self.pid, os.path.relpath(path, VERIF), ' no-failing-input-found' if nofail else ''))
         print('%s %s: %d obligations / %d discharged, %d evaluations, %d distinct, %d known, %d violations, %.1fs' % (
